@@ -19,7 +19,9 @@ TRUSTED = [
 ]
 ASSUMPTIONS = ["coherent cost vectors; leaf syntenies non-empty with distinct families; prescribed root order is a common supersequence"]
 OPEN = [
-    'adequacy of the oracle Spec.optimum w.r.t. every valid sequence-labelled solution (Properties/C02Spec.lean when present); proved: validity, finiteness, cost <= Spec.optimum, optimality and completeness among all admissible mask labellings (C02Dp.lean)',
+    "end-to-end optimality (C02_ext_optimal, C02_base_optimal, C02_full, spfs = exactly the optimal valid set) is proved "
+    "for pre = none; with a PRESCRIBED root order only the oracle lower bound (C02_oracle_le_prescribed) and the "
+    "mask-level theorems of C02Dp are proved",
 ]
 
 CORPUS = [
